@@ -10,8 +10,8 @@ EXPLANATION = ('UB-obligation engine (see C15) restricted to the integer helpers
                'add/sub/negate/divide and every narrowing in them is discharged by LLVM -O2 or justified in the table. Plus: the word paths of fastrat_fdiv_q and divexact '
                'exclude the one operand pair whose quotient does not fit a word (INT_MIN). The arithmetic identities themselves (Euclidean div/mod axioms, bound tightening) '
                'are decided in one respect only: the direction of every rounding step - constant folding of div / mod and the tightening of bounds on integer variables are '
-               'evaluated over a finite rounding-direction domain (exact quotient, floor, floor + k; integer or not) for every sign / strictness case. The div/mod elimination axioms and '
-               'the gcd normalisation are not decided.')
+               'evaluated over a finite rounding-direction domain (exact quotient, floor, floor + k; integer or not) for every sign / strictness case. The div/mod elimination axioms are compared, as symbolic terms, with t = c*q + m, 0 <= m <= |c| - 1. '
+               'The gcd normalisation is not decided.')
 
 
 def run(src, tier, seed):
@@ -32,7 +32,73 @@ def run(src, tier, seed):
         else:
             res.bad(r, 'int-min-unguarded:%s' % nm.split('::')[-1], fx.loc(f), '%s divides machine words without excluding INT_MIN: INT_MIN / -1 does not fit a word and traps' % nm)
     rounding_direction_rules(fx, res)
+    divmod_axiom_rule(fx, res)
     return res
+
+
+def divmod_axiom_rule(fx, res):
+    """(div t c) and (mod t c) with a non-constant t are replaced by fresh variables q, m constrained by  t = c*q + m  and  0 <= m <= |c| - 1  (SMT-LIB: the
+    remainder is non-negative for either sign of c).  DivModConfig::rewrite is evaluated with symbolic term constructors; the emitted definition is compared
+    with these three conjuncts up to commutativity and the two ways of writing the upper bound."""
+    import itertools
+    from build import AnalysisBroken
+    from boolctor import Interp, Unmodelled, Thrown
+    r = res.rule('div-mod-elimination-axioms', 'DivModConfig::rewrite, evaluated with symbolic term constructors for div and mod, fresh and cached: the term is replaced by the quotient variable for '
+                 'div and the remainder variable for mod, and the definition emitted for a fresh pair is exactly  dividend = divisor*q + m,  0 <= m,  m <= |divisor| - 1', floor=4)
+    f = fx.func('opensmt::DivModConfig::rewrite')
+    D, d, q, m = ('t', 'D'), ('t', 'd'), ('t', 'q'), ('t', 'm')
+
+    def canon(t):
+        if isinstance(t, tuple) and t and t[0] in ('plus', 'times', 'eq', 'and'):
+            args = [canon(x) for x in t[1:]]
+            if t[0] == 'and':
+                flat = []
+                for a in args:
+                    flat += list(a[1:]) if isinstance(a, tuple) and a and a[0] == 'and' else [a]
+                args = flat
+            return (t[0],) + tuple(sorted(args, key=repr))
+        if isinstance(t, tuple) and t and t[0] == 'lt' and t[2] == ('const', ('abs', ('num', 'd'))):
+            return ('leq', canon(t[1]), ('const', ('minus', ('abs', ('num', 'd')), 1)))      # m < |c|  ==  m <= |c| - 1 over the integers
+        if isinstance(t, tuple):
+            return tuple(canon(x) for x in t)
+        return t
+    want = canon(('and', ('eq', D, ('plus', ('times', d, q), m)), ('leq', ('int', 0), m), ('leq', m, ('const', ('minus', ('abs', ('num', 'd')), 1)))))
+    for kind, incache in itertools.product(('div', 'mod'), (False, True)):
+        defs = []
+        it = Interp(fx, f, '?', {})
+        it.oracle = {
+            'getSymRef': lambda i, a, n, kind=kind: ('sym', kind), 'isIntDiv': lambda i, a, n: a[0] == ('sym', 'div'), 'isMod': lambda i, a, n: a[0] == ('sym', 'mod'),
+            'getPterm': lambda i, a, n: [D, d],
+            'find': lambda i, a, n, c=incache: ('it', 'hit' if c else 'end'), 'end': lambda i, a, n: ('it', 'end'),
+            'op:->': lambda i, a, n: a[0], 'mem:second': lambda i, a, n: ('dm', q, m), 'mem:div': lambda i, a, n: a[0][1], 'mem:mod': lambda i, a, n: a[0][2],
+            'freshDivModPair': lambda i, a, n: ('dm', q, m), 'insert': lambda i, a, n: None, 'emplace': lambda i, a, n: None, 'try_emplace': lambda i, a, n: None,
+            'isConstant': lambda i, a, n: True, 'getNumConst': lambda i, a, n: ('num', 'd'), 'isInteger': lambda i, a, n: True,
+            'abs': lambda i, a, n: ('abs', a[0]), 'op:-': lambda i, a, n: ('minus', a[0], a[1]),
+            'mkAnd': lambda i, a, n: ('and',) + tuple(a[0] if len(a) == 1 and isinstance(a[0], list) else a), 'mkEq': lambda i, a, n: ('eq', a[0], a[1]),
+            'mkPlus': lambda i, a, n: ('plus',) + tuple(a[0] if len(a) == 1 and isinstance(a[0], list) else a),
+            'mkTimes': lambda i, a, n: ('times',) + tuple(a[0] if len(a) == 1 and isinstance(a[0], list) else a),
+            'mkLeq': lambda i, a, n: ('leq', a[0], a[1]), 'mkGeq': lambda i, a, n: ('leq', a[1], a[0]), 'mkLt': lambda i, a, n: ('lt', a[0], a[1]), 'mkGt': lambda i, a, n: ('lt', a[1], a[0]),
+            'getTerm_IntZero': lambda i, a, n: ('int', 0), 'mkIntConst': lambda i, a, n: ('const', a[0]),
+            'push': lambda i, a, n, defs=defs: defs.append(a[0]), 'push_back': lambda i, a, n, defs=defs: defs.append(a[0]),
+        }
+        try:
+            out = it.run_env({f['params'][0]['n']: ('t', 'term'), 'this.divModCache': ('cache',), 'this.definitions': ('defs',), 'this.logic': ('logic',)})
+        except Thrown:
+            raise AnalysisBroken('DivModConfig::rewrite throws on a div / mod term')
+        except Unmodelled as e:
+            raise AnalysisBroken('DivModConfig::rewrite is outside the modelled subset: %s' % e)
+        case = '%s term, pair %s' % (kind, 'cached' if incache else 'fresh')
+        problems = []
+        if out != (q if kind == 'div' else m):
+            problems.append('the term is replaced by %s instead of the %s variable' % (out, 'quotient' if kind == 'div' else 'remainder'))
+        if not incache and (len(defs) != 1 or canon(('and', defs[0])) != want):
+            problems.append('the emitted definition is %s' % (defs,))
+        if incache and any(canon(('and', x)) != want for x in defs):
+            problems.append('a different definition is emitted for a cached pair: %s' % (defs,))
+        if problems:
+            res.bad(r, 'div-mod-axiom-wrong', fx.loc(f), 'DivModConfig::rewrite (%s): %s; integer division demands dividend = divisor*q + m with 0 <= m <= |divisor| - 1' % (case, '; '.join(problems)))
+        else:
+            res.ok(r, '%s: replaced by %s%s' % (case, out[1], '' if incache else ', definition t = c*q + m, 0 <= m <= |c|-1'))
 
 
 # ---------------------------------------------------------------------------------------------------------------------
